@@ -571,7 +571,11 @@ class T2(T):
                 ev += self.scan(a)
             st = self.site(e0, "gate " + self.callee(e0))
             self.bool_sites.append(st)
-            return ev + [f"(.havoc {reg} {st})"], f"(.not (.eq {reg} 0))"
+            ev = ev + [f"(.havoc {reg} {st})"]
+            sticky = (self.spec.get("sticky") or {}).get(self.callee(e0))
+            if sticky is not None:      # ghost: "this call has answered TRUE at least once"
+                ev.append(f"(.ite (.not (.eq {reg} 0)) (.set {sticky} 1) .skip)")
+            return ev, f"(.not (.eq {reg} 0))"
         return None
 
     def cond(self, e):
@@ -647,7 +651,8 @@ class T2(T):
             e = strip(kids(n)[0])
             reg = self.spec["locals"].get("retval")
             if reg is None:
-                return self.seq(self.scan(e) + ["(.ret 2)"])
+                c = T.enum_const(self, e)
+                return self.seq(self.scan(e) + [f"(.ret {c if c in (0, 1) else 2})"])
             if self.local_reg(e) == reg:
                 return "(.ret 2)"
             v = self.const_for(reg, e)
@@ -660,6 +665,19 @@ class T2(T):
                 reg = self.local_reg(e["inner"][0])
                 if reg is not None and not self.is_mem(reg):
                     return self.seq(self.assign(reg, e["inner"][1], e))
+        if k in ("ForStmt", "WhileStmt"):
+            inner = n["inner"]
+            cnd = inner[2] if k == "ForStmt" else inner[0]
+            if isinstance(cnd, dict) and cnd and self.mentions_reg(cnd):
+                # `for (..; c; ..) body` with a condition over tracked state: each iteration tests c first
+                init, inc, body = (inner[0], inner[3], inner[4]) if k == "ForStmt" else (None, None, inner[1])
+                pre = self.scan(init) if isinstance(init, dict) and init else []
+                if isinstance(inc, dict) and inc and self.scan(inc):
+                    raise self.U("loop increment with a side effect")
+                cev, c = self.cond(cnd)
+                if any(".havoc" in x for x in cev):
+                    raise self.U("gate call in a loop condition")
+                return self.seq(pre + [f"(.loop {self.seq(cev + [f'(.ite {c} {self.stmt(body)} .brk)'])})"])
         return T.stmt(self, n)
 
     def top(self):
@@ -792,3 +810,38 @@ def translate_send(spec, fdecl, src, consts, U, root):
     out += ["-/", "import Nice.Model.Flow", "namespace Nice.Gen." + spec["lean_ns"], "open Nice.Flow", "",
             "def prog : Stmt :=", prog, "", "end Nice.Gen." + spec["lean_ns"], ""]
     return "\n".join(out), {"sites": len(t.sites), "send_sites": sum(1 for x in t.sites if x.startswith("marked"))}
+
+
+# ---------------------------------------------------------------------------------------------------------------------
+# fourth skeleton: the pacing timer agent/conncheck.c priv_conn_check_tick_agent_locked (C19 / C01: the Ta timer is not
+# stopped while any stream still has work)
+# ---------------------------------------------------------------------------------------------------------------------
+SPEC_TICK = {
+    "lean_ns": "ConnCheckTick",
+    "file": "agent/conncheck.c",
+    "fn": "priv_conn_check_tick_agent_locked",
+    "locals": {"keep_timer_going": 0, "stun_sent": 1},
+    "offset": {},
+    "cond_calls": {"priv_conn_check_tick_stream_nominate": 2},
+    "sticky": {"priv_conn_check_tick_stream_nominate": 3},
+    "bool_result_calls": {"priv_conn_check_triggered_check", "priv_conn_check_tick_stream", "priv_conn_check_ordinary_check"},
+    "marked": {"conn_check_stop": 4},
+    "pure": set(),
+}
+
+
+def translate_tick_flow(spec, fdecl, src, consts, U, root):
+    t = T2(spec, fdecl, src, consts, U, {})
+    prog = t.top()
+    out = [f"/- GENERATED by tools/extract_flow.py from {spec['file']} {spec['fn']} — do not edit.",
+           "   Skeleton of the pacing-timer callback (see lean/Nice/Model/Flow.lean).  Registers:",
+           "     r0 = `keep_timer_going`, r1 = `stun_sent` (locals), r2 = (ghost) last answer of priv_conn_check_tick_stream_nominate,",
+           "     r3 = (ghost) 1 once that call has answered TRUE for some stream in this tick.",
+           "   Event kind 4 = conn_check_stop (the timer source is destroyed), 0 = other call / store.  Sites:"]
+    for i, d in enumerate(t.sites):
+        out.append(f"     {i} — {d}".replace("/-", "/ -").replace("-/", "- /"))
+    out += ["-/", "import Nice.Model.Flow", "namespace Nice.Gen." + spec["lean_ns"], "open Nice.Flow", "",
+            "def prog : Stmt :=", prog, "",
+            f"def boolSites : List Nat := [{', '.join(map(str, sorted(set(t.bool_sites))))}]",
+            "", "end Nice.Gen." + spec["lean_ns"], ""]
+    return "\n".join(out), {"sites": len(t.sites)}
